@@ -111,6 +111,32 @@ def pure_algebra(rep, tier):
             rep.paths += 1
             if pth.kind != "ret":
                 rep.unknown("%s operators under the monitor: %r" % (nm, pth.value))
+    # constructors on caller-owned lists of ARBITRARY integers (exact ints): the list must not be rewritten
+    for nm in ("bn128_FQ2", "optimized_bn128_FQ2", "bls12_381_FQ12", "optimized_bls12_381_FQ12"):
+        K = getattr(f, nm)
+        dg = K.degree
+
+        def run_ctor(ctx, K=K, dg=dg, nm=nm):
+            lst = [SymZ.var("k%d" % i) for i in range(dg)]
+            M.call(nm + "(list of any ints)", K, lst, repeat=False)
+            tp = tuple(lst)
+            M.call(nm + "(tuple)", K, tp, repeat=False)
+            return True
+        core.explore(run_ctor, ctx_kwargs=dict(mul="uf"), on_path=lambda pth: None)
+        rep.paths += 1
+    # ad-hoc instantiations (other primes / modulus polynomials) share no state with the library's classes and with each other
+    refM, optM = mod("py_ecc.fields.field_elements"), mod("py_ecc.fields.optimized_field_elements")
+    for Mx, tagx in ((refM, "ref"), (optM, "opt")):
+        for q, mc in ((7, (1, 0)), (7, (2, 0)), (f.bn128_FQ.field_modulus, (5, 3)), (f.bls12_381_FQ.field_modulus, (2, 1))):
+            T = type("AdHocFQ2", (Mx.FQ2,), {"field_modulus": q, "FQ2_MODULUS_COEFFS": mc})
+            x, y = T([3, 5]), T([2, 6])
+            M.call("%s ad-hoc FQ2 over %s with modulus %s: mul" % (tagx, q if q < 100 else "a curve prime", mc), lambda x=x, y=y: x * y)
+            M.call("%s ad-hoc FQ2: inv" % tagx, lambda x=x: x.inv())
+        # the library's own class is unaffected by the ad-hoc use above (value check against plain arithmetic)
+        K = getattr(f, ("optimized_" if tagx == "opt" else "") + "bn128_FQ2")
+        pr = K([3, 5]) * K([2, 6])
+        require(rep, [int(c) for c in pr.coeffs] == [(3 * 2 - 5 * 6) % K.field_modulus, (3 * 6 + 5 * 2) % K.field_modulus], "%s bn128 FQ2 product unaffected by ad-hoc instantiations" % tagx, None,
+                {"kind": "c20_purity", "args": {"what": "adhoc"}})
     # curve modules
     for mn in ("py_ecc.bn128.bn128_curve", "py_ecc.bls12_381.bls12_381_curve", "py_ecc.optimized_bn128.optimized_curve", "py_ecc.optimized_bls12_381.optimized_curve"):
         m = mod(mn)
@@ -207,10 +233,10 @@ def pure_protocol(rep, tier):
         def run(ctx, S=S, suite=suite):
             W = World()
             sk = SymZ.var("sk", 1, cs.curve_order - 1)
-            m = AbsBytes.var("m", 0, 4)
+            m = AbsBytes.var("m", 0, 300)
             sig = AbsBytes.var("sig", 0, 200)
             keys = [AbsBytes.var("pk0", 0, 200), AbsBytes.var("pk1", 0, 200)]
-            msgs = [m, AbsBytes.var("m1", 0, 4)]
+            msgs = [m, AbsBytes.var("m1", 0, 300)]
             with world.patched(cs, **W.bindings()):
                 base = statefp.state_fp()
                 pk = S.SkToPk(sk)
@@ -243,6 +269,33 @@ def pure_protocol(rep, tier):
         core.explore(run, on_path=on_path, ctx_kwargs=dict(branch_timeout_ms=30000, max_decisions=400), max_paths=3000)
         d = statefp.diff(M.base, statefp.state_fp())
         require(rep, not d, "%s: state equals the post-import snapshot after all explored paths %s" % (suite, d[:3]), None, {"kind": "c20_purity", "args": {"what": suite}})
+
+        # calls that REFUSE their input (ValidationError) must leave no trace either: sk is ANY integer here
+        def run_bad(ctx, S=S, suite=suite):
+            from eth_utils import ValidationError
+            W = World()
+            sk = SymZ.var("sk")
+            m = AbsBytes.var("m", 0, 300)
+            with world.patched(cs, **W.bindings()):
+                base = statefp.state_fp()
+                for fn_ in ([lambda: S.SkToPk(sk), lambda: S.Sign(sk, m)] + ([lambda: S.PopProve(sk)] if suite == "G2ProofOfPossession" else [])):
+                    try:
+                        fn_()
+                    except ValidationError:
+                        pass
+                after = statefp.state_fp()
+            return statefp.diff(base, after)
+
+        def on_bad(pth, suite=suite):
+            rep.paths += 1
+            if pth.kind != "ret":
+                rep.unknown("%s refusing calls under the monitor: %r" % (suite, pth.value))
+                return
+            g_, m_ = pth.ctx.satisfiable()
+            skv = str(m_.eval(z3.Int("sk"), model_completion=True)) if m_ is not None else "0"
+            require(rep, not pth.value, "%s: SkToPk / Sign%s leave module state unchanged for EVERY integer sk, also when they raise %s" % (suite, " / PopProve" if suite.endswith("Possession") else "", pth.value[:3]),
+                    pth.decisions, {"kind": "c20_purity", "args": {"what": suite, "sk": skv}})
+        core.explore(run_bad, on_path=on_bad, ctx_kwargs=dict(branch_timeout_ms=30000))
     rep.note("%d monitored calls" % M.calls)
 
 
@@ -251,40 +304,6 @@ def no_hidden_inputs(rep, tier):
     """no randomness, clock, environment, id()-dependent ordering or `global` rebinding in library code; no statement that
     assigns into / calls a mutating method on a module-level name from inside a function."""
     rp = {"kind": "c20_purity", "args": {"what": "sources"}}
-    bad = []
-    mutators = {"append", "extend", "insert", "pop", "remove", "clear", "update", "sort", "reverse", "setdefault", "popitem", "add", "discard"}
-    n_files = 0
-    for root, _, files in os.walk(os.path.join(REPO, "py_ecc")):
-        for fn in files:
-            if not fn.endswith(".py"):
-                continue
-            n_files += 1
-            path = os.path.join(root, fn)
-            tree = ast.parse(open(path).read(), path)
-            top = {t.id for n in tree.body if isinstance(n, (ast.Assign, ast.AnnAssign)) for t in (n.targets if isinstance(n, ast.Assign) else [n.target]) if isinstance(t, ast.Name)}
-            for node in ast.walk(tree):
-                if isinstance(node, (ast.Import, ast.ImportFrom)):
-                    names = [a.name for a in node.names] + ([node.module] if isinstance(node, ast.ImportFrom) and node.module else [])
-                    for nm in names:
-                        if nm.split(".")[0] in ("random", "time", "secrets", "datetime", "uuid", "threading", "multiprocessing"):
-                            bad.append((path, node.lineno, "imports " + nm))
-                if isinstance(node, ast.Global):
-                    bad.append((path, node.lineno, "global " + ",".join(node.names)))
-                if isinstance(node, ast.Call) and isinstance(node.func, ast.Attribute) and isinstance(node.func.value, ast.Name) and node.func.value.id == "os" and node.func.attr in ("urandom", "getenv"):
-                    bad.append((path, node.lineno, "os." + node.func.attr))
-                if isinstance(node, ast.FunctionDef):
-                    local = {a.arg for a in node.args.args + node.args.kwonlyargs} | {t.id for n in ast.walk(node) if isinstance(n, ast.Name) and isinstance(n.ctx, ast.Store) for t in [n]}
-                    for n in ast.walk(node):
-                        tgt = None
-                        if isinstance(n, (ast.Assign, ast.AugAssign)):
-                            for t in (n.targets if isinstance(n, ast.Assign) else [n.target]):
-                                if isinstance(t, (ast.Subscript, ast.Attribute)) and isinstance(t.value, ast.Name):
-                                    tgt = t.value.id
-                        if isinstance(n, ast.Call) and isinstance(n.func, ast.Attribute) and n.func.attr in mutators and isinstance(n.func.value, ast.Name):
-                            tgt = n.func.value.id
-                        if tgt and tgt in top and tgt not in local:
-                            bad.append((path, getattr(n, "lineno", 0), "mutates module-level %s" % tgt))
-    allowed = [b for b in bad if b[0].endswith("py_ecc/__init__.py")]       # lazy sub-package import table / recursion limit (import machinery)
-    bad = [b for b in bad if b not in allowed]
+    bad, allowed, n_files = statefp.scan_sources(REPO)
     require(rep, not bad, "no randomness / clock / environment / global rebinding / mutation of module-level objects in %d source files %s" % (n_files, bad[:3]), None, rp)
     rep.note("py_ecc/__init__.py lazily imports sub-packages into its globals (import machinery, not a function of the API): %s" % [a[2] for a in allowed][:3])
